@@ -218,7 +218,7 @@ def gen_graph(rng, L, allow_lib=True):
 
 
 def cases(rng, tier):
-    n = {'quick': 260, 'thorough': 1500, 'search': 150}[tier]
+    n = {'quick': 500, 'thorough': 1500, 'search': 150}[tier]
     out = []
     for k in range(n):
         L = rng.choice([1, 2, 2, 3, 3, 3, 4, 4, 5])
